@@ -1,6 +1,6 @@
 # Sizing and claim for C19 (allocation failure, injected faults enumerated)
 SPEC = {
-    "quick": {"rc_cases": 400, "rc_procs": 4, "enum": True},
+    "quick": {"rc_cases": 3000, "rc_procs": 8, "enum": True},
     "thorough": {"rc_cases": 6000, "rc_procs": 8, "enum": True, "fuzz_secs": 0},
     "assumptions": [
         "only failures of operator new are injected; allocations made inside libc (snprintf) are not failed",
